@@ -123,6 +123,7 @@ func (t *tr) ev(e ast.Expr) Term {
 			ch := t.ev(x.X)
 			_ = ch
 			t.detViolation("recv", x.Pos(), "channel receive")
+			t.chanToken(t.typeOf(x.X), 1)
 			ct := t.typeOf(x.X).Underlying().(*types.Chan)
 			rv := t.havocTerm("recv", ct.Elem())
 			t.noteCtxDone(x.X)
